@@ -119,6 +119,12 @@ def _make_inputs(task, variant, d, scratch, create=True):
         if variant == 3:
             with h5py.File(path, "a") as h5:
                 h5.attrs["setup:vf unknown key"] = "x"
+                # ... and copying it does, too: a scalar feature without
+                # stored summaries that consists of NaN only
+                nev = h5["events/deform"].shape[0]
+                if "volume" not in h5["events"]:
+                    h5["events"].create_dataset(
+                        "volume", data=np.full(nev, np.nan), chunks=(nev,))
     feats = None if variant != 2 else ["deform", "area_um", "time", "frame",
                                        "image", "mask", "index_online"]
     logs = {"vf-log": ["line 1", "line 2 µ"]}
